@@ -538,7 +538,7 @@ int main(int argc, char** argv) {
   g_cfg.W = 16;
   g_cfg.heap_reuse = 0;
   g_cfg.spur = 0;
-  g_cfg.horizon = 20000;
+  g_cfg.horizon = 100000;
   g_cfg.plain_horizon = 20000000;
   g_cfg.solo_limit = 5000;
   g_cfg.wall_limit_s = 120;
